@@ -100,9 +100,9 @@ CHECKS["C21"] = dict(
         quick=[dict(mode="edges", spec="PSliceGen.tla", cfg="PSliceGenEdges.cfg", depth=6, max=1000, name="edges"),
                dict(mode="sim", spec="PSliceGen.tla", cfg="PSliceGenSim.cfg", depth=12, num=6, max=600, name="walks"),
                dict(mode="edges", spec="PSliceGen.tla", cfg="PSliceGenConcEdges.cfg", depth=5, max=100, name="conc-edges")],
-        thorough=[dict(mode="edges", spec="PSliceGen.tla", cfg="PSliceGenEdges.cfg", depth=6, name="edges"),
-                  dict(mode="edges", spec="PSliceGen.tla", cfg="PSliceGenEdgesQuick.cfg", depth=6, max=10000, name="edges-3bins"),
-                  dict(mode="sim", spec="PSliceGen.tla", cfg="PSliceGenSim.cfg", depth=20, num=40, max=3000, name="walks"),
+        thorough=[dict(mode="edges", spec="PSliceGen.tla", cfg="PSliceGenEdges.cfg", depth=6, max=12000, name="edges"),
+                  dict(mode="edges", spec="PSliceGen.tla", cfg="PSliceGenEdgesQuick.cfg", depth=6, max=5000, name="edges-3bins"),
+                  dict(mode="sim", spec="PSliceGen.tla", cfg="PSliceGenSim.cfg", depth=20, num=40, max=2000, name="walks"),
                   dict(mode="edges", spec="PSliceGen.tla", cfg="PSliceGenConcEdges.cfg", depth=5, max=1000, name="conc-edges"),
                   dict(mode="sim", spec="PSliceGen.tla", cfg="PSliceGenConcSim.cfg", depth=10, num=40, max=300, salt=3, name="conc-walks")]),
     judge=dict(spec="PSliceTrace.tla", cfg="PSliceTrace.cfg"),
@@ -135,10 +135,10 @@ CHECKS["C19"] = dict(
     gen=dict(
         quick=[dict(mode="edges", spec="ShedGen.tla", cfg="ShedGenEdgesQuick.cfg", depth=6, max=1500, name="index-edges"),
                dict(mode="sim", spec="ShedGen.tla", cfg="ShedGenSim.cfg", depth=12, num=30, max=700, name="walks")],
-        thorough=[dict(mode="edges", spec="ShedGen.tla", cfg="ShedGenEdges.cfg", depth=8, max=30000, timeout=1500, name="index-edges"),
-                  dict(mode="edges", spec="ShedGen.tla", cfg="ShedGenEdgesQuick.cfg", depth=6, max=12000, timeout=1500, name="batch-edges"),
-                  dict(mode="edges", spec="ShedGen.tla", cfg="ShedGenFieldEdges.cfg", depth=6, max=8000, timeout=1500, name="field-edges"),
-                  dict(mode="sim", spec="ShedGen.tla", cfg="ShedGenSim.cfg", depth=25, num=150, max=4000, name="walks")]),
+        thorough=[dict(mode="edges", spec="ShedGen.tla", cfg="ShedGenEdges.cfg", depth=8, max=20000, timeout=1500, name="index-edges"),
+                  dict(mode="edges", spec="ShedGen.tla", cfg="ShedGenEdgesQuick.cfg", depth=6, max=8000, timeout=1500, name="batch-edges"),
+                  dict(mode="edges", spec="ShedGen.tla", cfg="ShedGenFieldEdges.cfg", depth=6, max=6000, timeout=1500, name="field-edges"),
+                  dict(mode="sim", spec="ShedGen.tla", cfg="ShedGenSim.cfg", depth=25, num=120, max=3000, name="walks")]),
     judge=dict(spec="ShedTrace.tla", cfg="ShedTrace.cfg"),
     corrupt=corrupt_field("get", "found", lambda e: not e["found"]),
     nontrivial=lambda s: any(o["op"] in _SHED_WRITES for o in s["ops"]) and any(o["op"] not in _SHED_WRITES for o in s["ops"]),
